@@ -185,6 +185,8 @@ func rulesC16(c *Ctx) {
 	commentsRule(c, "C16.comments")
 	openersRule(c, "C16.openers")
 	peekDepthRule(c, "C16.peekdepth")
+	wsRunRule(c, "C16.wsrun")
+	parserStateRule(c, "C16.parserstate")
 	afterWSRule(c, tt)
 	parseFreshRule(c, "C16.parsefresh")
 	regexGapRule(c)
@@ -916,4 +918,111 @@ func peekDepthRule(c *Ctx, rule string) {
 		}
 	}
 	c.Floor(rule, len(sites), 4)
+}
+
+// wsRunRule: a run of whitespace is one token, however long.
+func wsRunRule(c *Ctx, rule string) {
+	p := c.P
+	c.Rule(rule, "the loop of scanWhitespace is left only on a test of the character just read (end marker, or not whitespace): an exit that depends on anything else (a buffer that is full) cuts a long gap into several WS tokens, and the places that swallow exactly one WS token (before a regex, after a name) then see whitespace where they expect the next token")
+	f := p.SSAFunc(p.Method("Scanner", "scanWhitespace"))
+	read := p.SSAFunc(p.Method("reader", "read"))
+	if f == nil || read == nil {
+		c.Unk(rule, "(*Scanner).scanWhitespace", 0, "anchor not found")
+		return
+	}
+	// loop blocks: those on a cycle
+	inLoop := map[*ssa.BasicBlock]bool{}
+	for _, b := range f.Blocks {
+		for _, s := range b.Succs {
+			if reaches(s, b, map[int]bool{}) {
+				inLoop[b] = true
+			}
+		}
+	}
+	var dependsOnRune func(v ssa.Value, d int) bool
+	dependsOnRune = func(v ssa.Value, d int) bool {
+		if d > 6 {
+			return false
+		}
+		switch x := v.(type) {
+		case *ssa.Extract:
+			if call, ok := x.Tuple.(*ssa.Call); ok && call.Call.StaticCallee() == read {
+				return x.Index == 0
+			}
+		case *ssa.BinOp:
+			return dependsOnRune(x.X, d+1) || dependsOnRune(x.Y, d+1)
+		case *ssa.UnOp:
+			return dependsOnRune(x.X, d+1)
+		case *ssa.Call:
+			for _, a := range x.Call.Args {
+				if dependsOnRune(a, d+1) {
+					return true
+				}
+			}
+		case *ssa.Phi:
+			for _, e := range x.Edges {
+				if dependsOnRune(e, d+1) {
+					return true
+				}
+			}
+		}
+		return false
+	}
+	n := 0
+	for _, b := range f.Blocks {
+		if !inLoop[b] {
+			continue
+		}
+		ifi, ok := b.Instrs[len(b.Instrs)-1].(*ssa.If)
+		if !ok {
+			continue
+		}
+		exits := false
+		for _, s := range b.Succs {
+			if !inLoop[s] {
+				exits = true
+			}
+		}
+		if !exits {
+			continue
+		}
+		n++
+		key := fmt.Sprintf("(*Scanner).scanWhitespace: loop exit #%d", n)
+		if dependsOnRune(ifi.Cond, 0) {
+			c.OK(rule, key, ifi.Cond.Pos(), "decided by the character just read")
+		} else {
+			c.Bad(rule, key, ifi.Cond.Pos(), "the loop can end while whitespace is still coming: the gap is returned as more than one WS token")
+		}
+	}
+	c.Floor(rule, n, 1)
+}
+
+// parserStateRule: parsing keeps no state in the Parser between statements.
+func parserStateRule(c *Ctx, rule string) {
+	p := c.P
+	c.Rule(rule, "no method of Parser other than its constructors and SetParams stores into a field of the Parser: a flag or table set while one statement is parsed is still there for the next statement of the same query, whose result then depends on what came before it")
+	n := 0
+	for _, f := range p.allSSAFuncs() {
+		if f.Signature.Recv() == nil || !strings.HasSuffix(f.Signature.Recv().Type().String(), ".Parser") {
+			continue
+		}
+		if f.Name() == "SetParams" {
+			continue
+		}
+		for _, b := range f.Blocks {
+			for _, in := range b.Instrs {
+				st, ok := in.(*ssa.Store)
+				if !ok {
+					continue
+				}
+				fa, ok := st.Addr.(*ssa.FieldAddr)
+				if !ok || len(f.Params) == 0 || fa.X != ssa.Value(f.Params[0]) {
+					continue
+				}
+				n++
+				c.Bad(rule, fmt.Sprintf("%s: store into Parser.%s", ssaFuncName(f), fieldNameOf(fa)), st.Pos(), "parser state written while parsing: it outlives the statement")
+			}
+		}
+	}
+	c.OK(rule, "stores into Parser fields by parse methods", 0, fmt.Sprintf("%d", n))
 }
